@@ -190,19 +190,31 @@ def run(ctx):
             facts_at[id(n)] = facts
 
         GuardWalker(on_expr=on_expr).walk_function(cf.node)
+        # the locals that hold the located node and the rewriting visitor, whatever they are called
+        orig_var = rw_var = None
+        for n in iter_own(cf.node):
+            if isinstance(n, (ast.Assign, ast.AnnAssign)) and isinstance(n.value, ast.Call):
+                t = n.targets[0] if isinstance(n, ast.Assign) else n.target
+                if isinstance(t, ast.Name):
+                    cal = index.callee(cf.mod, n.value, cf) or norm(n.value.func)
+                    if cal.endswith("find_in_ast"):
+                        orig_var = t.id
+                    elif cal.rpartition(".")[2] == "RewriteAtQuery":
+                        rw_var = t.id
+        ctx.need(orig_var and rw_var, "cannot find the locals holding find_in_ast(...) / RewriteAtQuery(...) in _conform_filename")
         writes = [(n, w, mode) for n, w, mode in wm.wrapper_write_sites.get(cf.qual, ()) if isinstance(n, ast.Call)]
         ctx.need(len(writes) >= 3, "expected three file() writes in _conform_filename, found {}".format(len(writes)))
         n_trunc = 0
         for call, _w, mode in writes:
             facts = facts_at.get(id(call)) or {}
             created = facts.get("path.isfile(filename)") is False
-            appended = facts.get("original_node is None") is True and mode == "a"
+            appended = facts.get("{} is None".format(orig_var)) is True and mode == "a"
             if created or appended:
                 ctx.ob("C12.gate", cf, short(call, 70), True, "creation write", line=call.lineno)
                 continue
             n_trunc += 1
             changed = any(k.startswith("cmp_ast(") and v is False for k, v in facts.items())
-            replaced = facts.get("rewrite_at_query.replaced") is True
+            replaced = facts.get("{}.replaced".format(rw_var)) is True
             ok = changed and replaced
             ctx.ob(
                 "C12.gate",
@@ -212,7 +224,7 @@ def run(ctx):
                 ""
                 if ok
                 else "an existing target is rewritten without being dominated by {}: a second run is not a no-op".format(
-                    " and ".join(x for x, y in (("`not cmp_ast(original, replacement)`", changed), ("`rewrite_at_query.replaced`", replaced)) if not y)
+                    " and ".join(x for x, y in (("`not cmp_ast(original, replacement)`", changed), ("`<RewriteAtQuery>.replaced`", replaced)) if not y)
                 ),
                 line=call.lineno,
             )
@@ -278,9 +290,11 @@ def run(ctx):
         truth = cli_choices(index, ModuleEnv(index)).get(("sync", "--truth"))
         table = None
         for n in iter_own(gt.node):
-            if isinstance(n, ast.Assign) and norm(n.targets[0]) == "arg2parse_emit_type" and isinstance(n.value, ast.Dict):
+            if isinstance(n, ast.Assign) and isinstance(n.targets[0], ast.Name) and isinstance(n.value, ast.Dict) and any(
+                isinstance(x, ast.Subscript) and norm(x.value) == n.targets[0].id and norm(x.slice).endswith(".truth") for x in iter_own(gt.node)
+            ):
                 table = [k.value for k in n.value.keys if isinstance(k, ast.Constant)]
-        ctx.need(truth and table, "cannot read --truth choices / arg2parse_emit_type")
+        ctx.need(truth and table, "cannot read --truth choices / the kind table of ground_truth")
         for t in truth:
             ok = t in table
             ctx.ob("C12.table", gt, "sync --truth {}".format(t), ok, "" if ok else "admitted by the CLI but absent from arg2parse_emit_type {}".format(table), line=gt.node.lineno)
